@@ -29,7 +29,7 @@ ASSUMPTIONS = [
 ]
 
 SHAPES = ("never_connected", "connect_in_flight", "retry_wait", "connected_idle", "mid_packet", "in_callback", "during_send", "after_fault",
-          "reset_and_send", "write_fault")
+          "reset_and_send", "write_fault", "busy_closed_send", "dump_device_full")
 # shapes only used by the close-before-timer pass (a client-internal timer is pending: back-off, busy-gateway pause, connect retry)
 TIMER_SHAPES = ("retry_wait", "after_fault", "busy_backoff", "connect_in_flight", "connected_idle", "reset_and_send")
 CLIENT_TASKS = ("connect", "_receive_loop", "_process_queue", "send", "_seed_network_map", "close", "_receive_impl")
@@ -42,7 +42,7 @@ def iso_request():
 
 def run_case(kind, shape, k, mode, post=("connect", "send", "data", "eof"), during=None):
     plan = {"never_connected": [("accept",)], "connect_in_flight": [("accept", 2.0)], "retry_wait": [("refuse",)] * 6 + [("accept",)]}.get(shape, [("accept",)])
-    s = aio.Session(kind, connect_plan=plan)
+    s = aio.Session(kind, connect_plan=plan, client_kwargs={"dump_to_file": "/dev/full"} if shape == "dump_device_full" else None)
     s.status_mode = mode
     s.close_returned = None
     s.outstanding = False
@@ -56,7 +56,7 @@ def run_case(kind, shape, k, mode, post=("connect", "send", "data", "eof"), duri
         conn = None
         if shape != "never_connected":
             conn = asyncio.ensure_future(c.connect())
-        if shape in ("connected_idle", "mid_packet", "in_callback", "during_send", "after_fault", "reset_and_send", "busy_backoff", "write_fault"):
+        if shape in ("connected_idle", "mid_packet", "in_callback", "during_send", "after_fault", "reset_and_send", "busy_backoff", "write_fault", "busy_closed_send", "dump_device_full"):
             while not s.gw.links:
                 await asyncio.sleep(0.01)
             await conn                      # connect() has returned: status callback done, receive loop started
@@ -71,6 +71,19 @@ def run_case(kind, shape, k, mode, post=("connect", "send", "data", "eof"), duri
             asyncio.ensure_future(c.send(iso_request()))
         elif shape == "after_fault":
             link.eof()
+        elif shape == "dump_device_full":
+            # the dump file sits on a full device: the buffered JSON lines cannot be written when the file is flushed / closed
+            link.feed(valid_packet(kind) + valid_packet(kind, sid=2))
+            await asyncio.sleep(0.05)
+        elif shape == "busy_closed_send":
+            # an EByte gateway that is out of connections says so and hangs up; the client sits out its 30 s pause (its reader is not
+            # reading) while the application sends: only the write side notices that the link is gone, and reconnects
+            if kind == "ebyte":
+                link.feed(b"Sorry,Limited")
+                await asyncio.sleep(0.05)
+                link.reset()
+                await asyncio.sleep(0.05)
+            asyncio.ensure_future(c.send(iso_request())) if kind != "actisense" else None
         elif shape == "write_fault" and kind != "actisense":
             # a fault only the write side notices: send() starts the reconnection while the reader still waits on the old link
             s.gw.write_actions[s.gw.total_writes + 1] = ("fail",)
@@ -125,7 +138,10 @@ def run_case(kind, shape, k, mode, post=("connect", "send", "data", "eof"), duri
             if during is not None and during[0] != "timer":
                 # something happens on the link while close() is still running (e.g. while it awaits a slow status callback)
                 s.at_step(loop.steps + during[1], inject_during)
-            await c.close()
+            try:
+                await c.close()
+            except OSError as e:
+                s.close_error = e          # (an I/O error of the dump file may surface from close(); what close() promises must hold anyway)
             s.close_returned = loop.time()
             s.close_returned_step = loop.steps
             if not hasattr(s, "links_open_at_return"):
